@@ -24,10 +24,27 @@ def _retry(f, *a):
 T_IMPL = [20]     # seconds per run of a harness; shortened once the implementation was seen to hang
 
 
+def _run_impl(exe, lines, timeout):
+    """like D.run_lines but keeps what the harness printed before a time-out (its stdout is line buffered)"""
+    import subprocess, os
+    e = dict(os.environ)
+    e.setdefault("ASAN_OPTIONS", "detect_leaks=0:abort_on_error=0")
+    e.setdefault("UBSAN_OPTIONS", "print_stacktrace=1")
+    p = subprocess.Popen([exe], stdin=subprocess.PIPE, stdout=subprocess.PIPE, stderr=subprocess.PIPE, env=e)
+    try:
+        out, err = p.communicate(("\n".join(lines) + "\n").encode(), timeout=timeout)
+        rc = p.returncode
+    except subprocess.TimeoutExpired:
+        p.kill()
+        out, err = p.communicate()
+        rc = -999
+    return rc, out.decode("utf-8", "replace").split("\n"), err.decode("utf-8", "replace")
+
+
 def _cmp(model, exe, lines):
     """D.compare with a short time limit for the implementation (a hang is a result, not a reason to wait 2 minutes
     per shrinking step)"""
-    rc_c, out_c, err_c = D.run_lines([exe], lines, timeout=T_IMPL[0])
+    rc_c, out_c, err_c = _run_impl(exe, lines, T_IMPL[0])
     if rc_c == -999:
         T_IMPL[0] = 6
         return {"kind": "impl-crash", "rc": rc_c, "stderr": "the implementation did not finish within the time limit (hang)",
@@ -520,7 +537,7 @@ def run_diff(res, what, model, exe, gen, oracle, rounds, nops, rng, hist, sample
             return True
 
         def judge(ls):
-            rc, oc, er = D.run_lines([exe], ls, timeout=T_IMPL[0])
+            rc, oc, er = _run_impl(exe, ls, T_IMPL[0])
             if rc == -999:
                 T_IMPL[0] = 6
                 done = len([x for x in oc if x])
@@ -543,7 +560,7 @@ def run_diff(res, what, model, exe, gen, oracle, rounds, nops, rng, hist, sample
             small = D.ddmin(lines, lambda ls: legal(ls) and _cmp(model, exe, ls) is not None,
                             keep_prefix=keep, budget=budget)
         d2 = _cmp(model, exe, small) or d
-        rc, out_c, err = D.run_lines([exe], small, timeout=T_IMPL[0])
+        rc, out_c, err = _run_impl(exe, small, T_IMPL[0])
         why = judge(small)
         rep = {"correspondence": what, "model": model, "ops": small, "disagreement": d2, "impl_output": out_c[:200],
                "oracle": why}
